@@ -59,6 +59,7 @@ Mkdir(ok) == Alive /\ last' = Op("Mkdir", 0, ok) /\ UNCHANGED pvars
 ProbeTmp(j) == Alive /\ fst[j].st = "none" /\ last' = Op("ProbeTmp", j, FALSE) /\ UNCHANGED pvars
 CreateTmp(j, ok) ==      \* (over an orphan: a truncating create makes the name the new session's own file)
   /\ Alive /\ fst[j].st \in {"none", "orphan"}
+  /\ pst.st = "final"      \* data only goes into a channel whose properties are published: without them nothing is readable
   /\ fst' = [fst EXCEPT ![j] = IF ok THEN [st |-> "open", bad |-> FALSE, cl |-> FALSE] ELSE @]
   /\ last' = Op("CreateTmp", j, ok) /\ UNCHANGED <<cfg, pst, want, acc, calls, crashed, flt>>
 PWrite(j, ok) ==     \* write / pwrite / ftruncate on the open tmp. file
@@ -135,6 +136,7 @@ FinalComplete == \A j \in Finals : fst[j].cl                      \* C02 / C10: 
 FinalImmutable == [][\A j \in Finals : fst'[j] = fst[j]]_vars       \* C02: a final file never changes again
 VisibilityMonotone == [][Finals \subseteq Finals']_vars            \* C09
 PropsPublishedComplete == pst.st = "final" => pst.cl
+DataImpliesProps == (Finals # {} \/ Tmps # {}) => pst.st = "final"
 \* what any reader may open at any moment: final data files and the final properties file, all complete
 ReaderNeverSeesPartial == \A j \in 1..NW : fst[j].st \in {"open", "closed"} => j \notin Finals
 =============================================================================
